@@ -7,7 +7,7 @@ from .. import cliwork, drivers, procs
 from ..world import OUTPUT_SEAMS
 from . import c07, c13
 
-RUNS = {"quick": 1000, "thorough": 30000}
+RUNS = {"quick": 1000, "thorough": 20000}
 DUP = {"quick": 32, "thorough": 256}
 WALL = {"quick": 1500, "thorough": 6 * 3600}
 RUN_TIMEOUT = {"quick": 600, "thorough": 900}
